@@ -22,35 +22,38 @@ import (
 )
 
 type HarnessResult struct {
-	Harness    string         `json:"harness"`
-	Verdict    string         `json:"verdict"` // holds | violated | inconclusive
-	Reason     string         `json:"reason,omitempty"`
-	Paths      int            `json:"paths"`
-	PathsOK    int            `json:"paths_completed"`
-	PathsNT    int            `json:"paths_nontrivial"`
-	PathsEnded int            `json:"paths_assume_ended"`
-	PathsErr   int            `json:"paths_error"`
-	PathsBudg  int            `json:"paths_budget"`
-	Reached    int            `json:"reach_witness_paths"`
-	Asserts    int            `json:"asserts_checked"`
-	AssertsSym int            `json:"asserts_symbolic"`
-	Branches   int            `json:"branches"`
-	Forks      int            `json:"forks"`
-	Steps      int64          `json:"ssa_instructions"`
-	Queries    int            `json:"queries"`
-	QSat       int            `json:"q_sat"`
-	QUnsat     int            `json:"q_unsat"`
-	QUnknown   int            `json:"q_unknown"`
-	SolverS    float64        `json:"solver_s"`
-	Cross      int            `json:"cross_checks"`
-	CrossBad   int            `json:"cross_disagreements"`
-	WallS      float64        `json:"wall_s"`
-	Errors     map[string]int `json:"errors,omitempty"`
-	Funcs      []string       `json:"functions_encoded"`
-	Stubs      map[string]int `json:"stubs_hit,omitempty"`
-	Samples    []string       `json:"samples"`
-	Violations []Violation    `json:"violations,omitempty"`
-	InitSkip   []string       `json:"init_skipped,omitempty"`
+	Harness    string             `json:"harness"`
+	Verdict    string             `json:"verdict"` // holds | violated | inconclusive
+	Reason     string             `json:"reason,omitempty"`
+	Paths      int                `json:"paths"`
+	PathsOK    int                `json:"paths_completed"`
+	PathsNT    int                `json:"paths_nontrivial"`
+	PathsEnded int                `json:"paths_assume_ended"`
+	PathsErr   int                `json:"paths_error"`
+	PathsBudg  int                `json:"paths_budget"`
+	Reached    int                `json:"reach_witness_paths"`
+	Asserts    int                `json:"asserts_checked"`
+	AssertsSym int                `json:"asserts_symbolic"`
+	Branches   int                `json:"branches"`
+	Forks      int                `json:"forks"`
+	Steps      int64              `json:"ssa_instructions"`
+	Queries    int                `json:"queries"`
+	QSat       int                `json:"q_sat"`
+	QUnsat     int                `json:"q_unsat"`
+	QUnknown   int                `json:"q_unknown"`
+	SolverS    float64            `json:"solver_s"`
+	Cross      int                `json:"cross_checks"`
+	CrossBad   int                `json:"cross_disagreements"`
+	WallS      float64            `json:"wall_s"`
+	Errors     map[string]int     `json:"errors,omitempty"`
+	Funcs      []string           `json:"functions_encoded"`
+	Stubs      map[string]int     `json:"stubs_hit,omitempty"`
+	Samples    []string           `json:"samples"`
+	Violations []Violation        `json:"violations,omitempty"`
+	InitSkip   []string           `json:"init_skipped,omitempty"`
+	Notes      map[string]int     `json:"paths_by_note,omitempty"`
+	NoteErr    map[string]int     `json:"errors_by_note,omitempty"`
+	NoteSolver map[string]float64 `json:"solver_s_by_note,omitempty"`
 }
 
 var (
@@ -201,6 +204,14 @@ func newWorker(id int, prog *ssa.Program, hpkg, zpkg *ssa.Package) (w *Worker, e
 	if err != nil {
 		return nil, err
 	}
+	w.solver.onRestart = func() {
+		for i, lv := range w.ctx.levels {
+			if i > 0 {
+				w.solver.send("(push 1)\n")
+			}
+			w.solver.send(lv.text.String())
+		}
+	}
 	if *flagTrace != "" && id == 0 {
 		f, _ := os.Create(*flagTrace)
 		w.solver.log = f
@@ -274,6 +285,7 @@ func runHarness(workers []*Worker, name string, fn *ssa.Function) HarnessResult 
 		go func(w *Worker) {
 			defer wg.Done()
 			q0, s0, u0, k0, e0 := w.solver.queries, w.solver.nSat, w.solver.nUnsat, w.solver.nUnk, w.solver.elapsed
+			kills0 := w.solver.kills
 			for {
 				it, ok := ex.take(w.id)
 				if !ok {
@@ -295,6 +307,9 @@ func runHarness(workers []*Worker, name string, fn *ssa.Function) HarnessResult 
 			for s, n := range w.stubs {
 				ex.stats.Stubs[s] += n
 			}
+			if k := w.solver.kills - kills0; k > 0 {
+				ex.stats.Stubs["solver query abandoned by the watchdog and treated as unknown"] += k
+			}
 			ex.mu.Unlock()
 		}(w)
 	}
@@ -304,7 +319,7 @@ func runHarness(workers []*Worker, name string, fn *ssa.Function) HarnessResult 
 		PathsBudg: st.PathsBudget, Reached: st.ReachWitness, Asserts: st.AssertsChecked, AssertsSym: st.AssertsSymbolic,
 		Branches: st.Branches, Forks: st.Forks, Steps: st.Steps, Queries: st.Queries, QSat: st.QSat, QUnsat: st.QUnsat, QUnknown: st.QUnknown,
 		SolverS: st.SolverTime.Seconds(), Cross: st.CrossChecks, CrossBad: st.CrossDisagree, WallS: time.Since(t0).Seconds(),
-		Errors: st.Errors, Stubs: st.Stubs, Samples: st.Samples, Violations: st.Violations}
+		Errors: st.Errors, Stubs: st.Stubs, Samples: st.Samples, Violations: st.Violations, Notes: st.Notes, NoteErr: st.NoteErr, NoteSolver: st.NoteSolver}
 	for f := range st.Funcs {
 		r.Funcs = append(r.Funcs, f)
 	}
@@ -349,9 +364,14 @@ func (w *Worker) runPath(fn *ssa.Function, item WorkItem) {
 	ex := w.ex
 	p := w.newPath(item.trail)
 	w.path = p
+	solver0 := w.solver.elapsed
 	w.logging = true
 	w.out = w.out[:0]
 	w.mapOrderFork = false
+	w.absFloatText = false
+	w.loopBound = 0
+	w.absFloatArith = false
+	w.opaqueParseFloat = false
 	w.depth = 0
 	w.solver.lastErr = ""
 	outcome := "ok"
@@ -414,6 +434,20 @@ func (w *Worker) runPath(fn *ssa.Function, item WorkItem) {
 	ex.mu.Lock()
 	st := &ex.stats
 	st.Paths++
+	if len(p.ghost) > 0 {
+		if st.Notes == nil {
+			st.Notes = map[string]int{}
+			st.NoteErr = map[string]int{}
+		}
+		st.Notes[p.ghost[0]]++
+		if st.NoteSolver == nil {
+			st.NoteSolver = map[string]float64{}
+		}
+		st.NoteSolver[p.ghost[0]] += (w.solver.elapsed - solver0).Seconds()
+		if outcome == "error" || outcome == "budget" {
+			st.NoteErr[p.ghost[0]]++
+		}
+	}
 	st.Steps += p.steps
 	st.AssertsChecked += p.asserts
 	st.AssertsSymbolic += p.symAsrt
